@@ -7,7 +7,6 @@ use crate::json::J;
 use crate::world::*;
 use regress::{Match, Regex};
 use std::cell::RefCell;
-use std::collections::HashMap;
 use std::panic::{catch_unwind, AssertUnwindSafe};
 use std::sync::{Arc, Mutex};
 
@@ -288,7 +287,7 @@ pub struct ModelStats {
 
 pub struct Model<'w> {
     world: &'w World,
-    memo: Mutex<HashMap<(u32, String, usize), ModelAns>>,
+    memo: Mutex<crate::rng::DetMap<(u32, String, usize), ModelAns>>,
     pub stats: Mutex<ModelStats>,
     /// (description, pristine answer, in-process answer)
     pub pristine_viols: Mutex<Vec<(String, String, String)>>,
@@ -301,7 +300,7 @@ pub struct Model<'w> {
 
 impl<'w> Model<'w> {
     pub fn new(world: &'w World) -> Self {
-        Model { world, memo: Mutex::new(HashMap::new()), stats: Mutex::new(ModelStats::default()), pristine_viols: Mutex::new(Vec::new()), pinned_viols: Mutex::new(Vec::new()), pinned_budget: Mutex::new(8), shift_viols: Mutex::new(Vec::new()) }
+        Model { world, memo: Mutex::new(Default::default()), stats: Mutex::new(ModelStats::default()), pristine_viols: Mutex::new(Vec::new()), pinned_viols: Mutex::new(Vec::new()), pinned_budget: Mutex::new(8), shift_viols: Mutex::new(Vec::new()) }
     }
 
     /// FIRST(regex, text, cursor): a brand-new search on a freshly compiled,
@@ -960,7 +959,7 @@ struct Client<'a> {
     tid: usize,
     handles: Vec<Option<Handle>>,
     clones: Vec<Option<Arc<Regex>>>,
-    clone_srcs: RefCell<HashMap<u32, u32>>,
+    clone_srcs: RefCell<crate::rng::DetMap<u32, u32>>,
     recs: Vec<OpRec>,
     c09: Vec<C09Viol>,
     stats: ClientStats,
@@ -1019,7 +1018,7 @@ enum ArmedOut {
 
 impl<'a> Client<'a> {
     fn new(sh: &'a PassShared<'a>, tid: usize) -> Self {
-        Client { sh, tid, handles: Vec::new(), clones: Vec::new(), clone_srcs: RefCell::new(HashMap::new()), kept: Vec::new(), recs: Vec::new(), c09: Vec::new(), stats: ClientStats::default() }
+        Client { sh, tid, handles: Vec::new(), clones: Vec::new(), clone_srcs: RefCell::new(Default::default()), kept: Vec::new(), recs: Vec::new(), c09: Vec::new(), stats: ClientStats::default() }
     }
 
     fn spec(&self, reidx: u32) -> &'a RegexSpec {
@@ -1179,6 +1178,21 @@ impl<'a> Client<'a> {
                     None => self.rec("NoHandle".into(), 0, Fault::None),
                     Some(mut old) if old.dead => {
                         old.it = None;
+                        self.handles[*h as usize] = Some(old);
+                        self.recs.push(OpRec { outcome: "Dead".into(), steps: 0, fault: Fault::None, skipped_dead: true });
+                    }
+                    Some(mut old)
+                        if !old.model.ascii
+                            && old.model.cursor.map(|c| {
+                                let t = self.sh.bufs[old.model.hay as usize].text();
+                                c <= t.len() && !t.is_char_boundary(c)
+                            }) == Some(true) =>
+                    {
+                        // the iterator reported a range that does not end on a character boundary
+                        // (already recorded as a violation by the model): its cursor is no place
+                        // to resume from, the handle is finished
+                        old.it = None;
+                        old.dead = true;
                         self.handles[*h as usize] = Some(old);
                         self.recs.push(OpRec { outcome: "Dead".into(), steps: 0, fault: Fault::None, skipped_dead: true });
                     }
@@ -2122,6 +2136,8 @@ fn run_thread(sh: &PassShared, tid: usize) -> ThreadOut {
     let ctx = Ctx::new(tid, sched_ptr);
     let mut client = Client::new(sh, tid);
     with_ctx(&ctx, |ctx| client.run_script(ctx));
+    // nothing may be left for the thread-local destructors to free after the baton is gone
+    LAST_PANIC.with(|p| *p.borrow_mut() = None);
     let Client { recs, c09, stats, .. } = client;
     ThreadOut { recs, c09, stats, sites: ctx.sites_snapshot(), steps: ctx.total_steps.get(), ev: ctx.ev.get() }
 }
@@ -2154,6 +2170,7 @@ pub fn run_pass(sh: &PassShared) -> PassRes {
                             sched.wait_turn(t);
                             let out = catch_unwind(AssertUnwindSafe(|| run_thread(sh, t)));
                             sched.finish(t);
+                            sched.wait_release(t);
                             match out {
                                 Ok(o) => o,
                                 Err(_) => sched::harness_fatal("client thread panicked outside an op"),
@@ -2161,9 +2178,15 @@ pub fn run_pass(sh: &PassShared) -> PassRes {
                         })
                         .expect("spawn");
                     hs.push(h);
+                    // one at a time: thread start-up must not overlap with the next spawn
+                    sched.wait_arrived(t + 1);
                 }
                 sched.start();
+                // join only when nobody runs any more (see Scheduler::wait_all_done)
+                sched.wait_all_done();
                 for (t, h) in hs.into_iter().enumerate() {
+                    // thread teardown one at a time, with nothing else running
+                    sched.release(t);
                     match h.join() {
                         Ok(o) => outs[t] = Some(o),
                         Err(_) => sched::harness_fatal("client thread join failed"),
